@@ -11,11 +11,16 @@
    one long history in several OS processes (harness/c17), i.e. by sampling. *)
 From Coq Require Import ZArith List Bool Permutation Sorted Lia.
 From FxV Require Import model.M_NondetTypes model.M_NondetAllow gen.Gen_NondetSites model.M_Perm proofs.P_Perm model.M_State proofs.P_State.
+From FxV Require Import proofs.P_OsetPhase proofs.P_PermOset.
 Import ListNotations.
 Open Scope Z_scope.
 
+(* every generated site has an allow-table entry whose discharge class FITS the site's shape as the translator read
+   it from the source (collect-then-sort / accumulate-exact / accumulate-float / write-keyed-by-element for the
+   map loops; the format string, telemetry argument, compare-with-constant details for the float rows), and the
+   class's statement is a theorem *)
 Theorem C17_all_sites_discharged : forall s, In s gen_sites ->
-  exists d, lookup_allow s = Some d /\ discharge_stmt d.
+  exists d, lookup_allow s = Some d /\ discharge_fits d s = true /\ discharge_stmt d.
 Proof. exact all_sites_discharged. Qed.
 Print Assumptions C17_all_sites_discharged.
 
@@ -61,6 +66,26 @@ Theorem C17_power_diff : forall (rnd : Z -> Z),
   fsum rnd vals = sum_abs vals /\ fsum rnd vals' = fsum rnd vals.
 Proof. exact power_diff_order_irrelevant. Qed.
 Print Assumptions C17_power_diff.
+
+(* the shape "accumulate-exact" in general (gov Tally is the instance with five accumulators) *)
+Theorem C17_accumulate_exact : forall (A S : Type) (add : S -> S -> S) (g : A -> S),
+  (forall a b, add a b = add b a) -> (forall a b c, add (add a b) c = add a (add b c)) ->
+  forall acc l l', Permutation l l' ->
+  fold_left (fun a x => add a (g x)) l acc = fold_left (fun a x => add a (g x)) l' acc.
+Proof. exact accumulate_order_irrelevant. Qed.
+Print Assumptions C17_accumulate_exact.
+
+(* PowerDiff from the normalisation alone: non-negative powers summing to at most MaxUint32 on both sides (C07's
+   stored-oracle-set invariant members_ok) => every partial sum of every iteration order of the map is an exact
+   integer below 2^53, and the accumulated value is the exact sum *)
+Theorem C17_power_diff_members_ok : forall (rnd : Z -> Z),
+  (forall z, Z.abs z <= two53 -> rnd z = z) ->
+  forall cur lat, members_ok cur -> members_ok lat ->
+  forall order, Permutation (map snd (powers_of cur lat)) order ->
+  (forall n, sum_abs (firstn n order) <= two53 /\ fsum rnd (firstn n order) = sum_abs (firstn n order)) /\
+  fsum rnd order = power_diff_sum cur lat.
+Proof. exact power_diff_exact_members_ok. Qed.
+Print Assumptions C17_power_diff_members_ok.
 
 Theorem C17_power_diff_map_size : forall b c,
   (length (powers_of b c) <= length b + length c)%nat.
